@@ -3,12 +3,15 @@ from tools import smtpgen
 from tools.lv import unhex, unhexlist
 
 LEVEL = "proof"
+JOBS = 16
 CORRESPONDENCE = ("Model/Client.lean (connect, ehlo, send, rcpts, message, abort, testConnected, quit over a scripted peer) vs "
                   "SmtpConnection and AsyncSmtpConnection driven over loopback against the same scripted peer")
 RULE = ("client: every dialogue position (greeting, EHLO, MAIL, each RCPT, DATA, end-of-data, QUIT) x every fault kind (legal negative "
         "reply single/multi-line, same then close, malformed, partial line then close, immediate close, close after a good reply) for "
         "1..3 recipients [single faults], then random scripts (feature subsets, multi-line acceptances, 2-3 faults, programs "
-        "S/SQ/SS/NS/SN/SX), sync and tokio alternating. Non-trivial = the script contains a fault or the program has more than one "
+        "S/SQ/SS/NS/SN/SX), sync and tokio alternating; pool: the same single faults with the peer closing the connection, through "
+        "SmtpTransport / AsyncSmtpTransport::send_raw with further connections available (a send is never repeated on another "
+        "connection). Non-trivial = the script contains a fault or the program has more than one "
         "action; distinct = distinct case lines.")
 TRUSTED_BASE = ["Lean 4 kernel", "axioms: propext, Quot.sound, Classical.choice at most (see axioms per theorem)",
                 "Spec/Dialogue.lean (acceptor of RFC 5321 client transcripts), Spec/ReplyGrammar.lean, Spec/DataServer.lean",
@@ -21,16 +24,31 @@ EXHAUSTIVE_PARTS = ["single faults: every dialogue position x 6 fault kinds x {1
 
 def gen(tier, rng):
     n = {"quick": 1500, "search": 6000, "thorough": 25000}[tier]
-    return smtpgen.send_cases(rng, n)
+    cases = smtpgen.send_cases(rng, n)
+    # through the transport (SmtpTransport / AsyncSmtpTransport::send_raw, pool of one): the peer closes the connection at
+    # every position of the dialogue, while further connections would be accepted
+    # and served normally: a send is never repeated on another connection, and the next send is unaffected
+    from tools.props import c20
+    for nr in (1, 2):
+        h = c20.happy(nr)
+        to = ["x@y.z", "p@q.r"][:nr]
+        for client in "sa":
+            for pos in range(len(h) + 1):
+                sc = h[:pos]
+                for nsends in (1, 2):
+                    cases.append(c20.pool_case(client, 300, 1, False, nsends, "a@b.c", to, b"hello\r\n", [sc, h, h]))
+    return cases
 
 
 def nontrivial(case):
     f = case.split("\t")
+    if f[0] == "pool":
+        return True
     return len(f[3]) > 1 or ":c" in f[10] or any(not s.split(":")[0].startswith("32") for s in f[10].split(",")[2:])
 
 
 def shrinkable(case):
-    return [6]
+    return [6] if case.startswith("client") else []
 
 
 def distribution(cases):
@@ -38,6 +56,9 @@ def distribution(cases):
     for c in cases:
         f = c.split("\t")
         d["sync" if f[1] == "s" else "async"] += 1
+        if f[0] == "pool":
+            d["through_transport"] = d.get("through_transport", 0) + 1
+            continue
         d["prog_" + f[3]] = d.get("prog_" + f[3], 0) + 1
         k = "script_with_close" if ":c" in f[10] else "script_open"
         d[k] = d.get(k, 0) + 1
